@@ -216,3 +216,33 @@ PROPS["C04"] = dict(
     trusted_base=["Model/GeomBuilder.v follows BuffersBuilder in geometry_builder.rs; tools/gen.py skeleton translator"],
     assumptions=["vertex_offset chosen by the user does not overflow u32 (not checked by lyon)"],
 )
+
+PROPS["C17"] = dict(
+    level="proof",
+    level_text="Theorems (Props/C17.v) for ALL strings, attribute counts, stop characters, Unicode class predicates, number "
+               "types/arithmetics/conversions (empty text not a number), arc-oracle streams and ANY attribute buffer left by "
+               "a previous use: the parser model never exhausts its loop and never indexes an attribute buffer out of range "
+               "(outcome = Ok or one of the four ParseError kinds), the output builder is driven with properly nested, closed "
+               "calls in both cases, data whose first token is a drawing command other than move-to is rejected before "
+               "anything is built, the result does not depend on the parser object's previous use, and the (line, column) "
+               "carried by the source is the position of its current character. The model is a statement-by-statement port of "
+               "parser.rs, bit-exact for f32, compared on every string of up to 3 (quick) / 4 (thorough) tokens over a "
+               "23-token alphabet plus grammar-generated and mutated data. The print->parse round trip is validated per run "
+               "on random stored paths (incl. extreme floats), not proved.",
+    level_note="Trusted: Coq kernel; Base/F32.v; Rust's f32 text conversion (assumed: empty text is an error; correct rounding - "
+               "sampled each run); arc geometry is an oracle (hook verif_arcs); round trip is a validated, not a proved, clause.",
+    technique="Coq proof (fuel/measure, protocol and buffer-independence invariants over the parser loop) + token-exhaustive correspondence",
+    coq_targets=["theories/Props/C17.vo", "theories/Run/C17.vo"],
+    props_file="theories/Props/C17.v",
+    props_module="Props.C17",
+    harness=[dict(sub="c17", profile="debug"), dict(sub="c17", profile="release")],
+    rule="every concatenation of up to 3 (quick) / 4 (thorough) tokens from {M m L l H v Z z Q T C s A 1 -2 0.5 1e1 space , "
+         "newline x | superscript-2} with attribute count and stop character rotating; minimised past failures; grammar-"
+         "generated well-formed data (all commands, separators, number shapes) half of it mutated (insert/delete/replace incl. "
+         "non-ASCII numerics/whitespace), sometimes parsed with a different attribute count; round trip on 800 (quick) random "
+         "stored paths and 20000 random f32 texts; non-trivial = builder was called or an error was returned",
+    exhaustive_note="all token sequences up to the stated length over the 23-token alphabet",
+    trusted_base=["Model/Parser.v follows parser.rs statement by statement; hook PathParser.verif_arcs supplies arc geometry"],
+    assumptions=["parser options and output builder agree on num_attributes (documented precondition)",
+                 "finite numbers with |exponent| small enough to stay in the normal f32 range in the model comparison"],
+)
